@@ -91,7 +91,7 @@ def expected_blocks(pkg, keep_empty, extra_tags=None):
 def html_blocks(forest, out):
     for n in forest:
         if "name" in n:
-            if n["name"] in ("p", "h1", "h2", "h3", "h4", "h5", "h6", "pre"):
+            if n["name"] in ("p", "h1", "h2", "h3", "h4", "h5", "h6", "pre", "col", "area"):
                 out.append((n["name"], O.text_of_parsed(n["children"])))
             else:
                 html_blocks(n["children"], out)
@@ -104,6 +104,15 @@ def empty_elements(forest, out):
             if not n["children"] and not n["self_closed"]:
                 out.append(n)
             empty_elements(n["children"], out)
+    return out
+
+
+def self_closed_elements(forest, out):
+    for n in forest:
+        if "name" in n:
+            if n["self_closed"]:
+                out.append(n)
+            self_closed_elements(n["children"], out)
     return out
 
 
@@ -124,7 +133,11 @@ def api_stream(ctx):
         for t in list(pkg.linked):
             pkg.linked[t] = ("error", None)
         keep = rng.random() < 0.5
-        opts = {"style_map": "p.Quote => pre:separator('|')\np.Normal => pre:separator('|')" if sep else None,
+        # every third document: paragraphs and runs mapped to elements that LOOK like void elements (col, area, wbr) but are not
+        # among br / hr / img / input: empty ones are dropped like any other element
+        voidish = (i % 3 == 2)
+        opts = {"style_map": "p.Quote => pre:separator('|')\np.Normal => pre:separator('|')" if sep else
+                ("p.Quote => col:fresh\np.Normal => area:fresh\nr.Strong => wbr\nr.Emph => source" if voidish else None),
                 "include_default_style_map": True, "include_embedded_style_map": True,
                 "ignore_empty_paragraphs": not keep, "id_prefix": None, "conv": "no_open"}
         data, parts = B.build(pkg)
@@ -139,7 +152,7 @@ def api_stream(ctx):
             bad = "conversion raised %r" % html
         else:
             forest = O.strict_parse(html.value)
-            exp = expected_blocks(pkg, keep, {"Quote": "pre", "Normal": "pre"} if sep else {})
+            exp = expected_blocks(pkg, keep, {"Quote": "pre", "Normal": "pre"} if sep else ({"Quote": "col", "Normal": "area"} if voidish else {}))
             if sep:
                 # consecutive pre paragraphs are one element, their texts joined by the separator; an EMPTY paragraph that is
                 # dropped contributes nothing, not even a separator
@@ -156,8 +169,11 @@ def api_stream(ctx):
                 bad = ("with ignore_empty_paragraphs=False every paragraph must yield its block" if keep else
                        "a paragraph with content was removed, or an empty one kept") + ": expected %s, got %s" % (exp[:6], got[:6])
             else:
-                for e in empty_elements(forest, []):
-                    ok = e["name"] in STRUCTURE or (e["name"] == "a" and "id" in e["attrs"]) or (keep and e["name"] in ("p", "h1", "h2", "pre"))
+                for e in self_closed_elements(forest, []):
+                    if e["name"] not in ("br", "hr", "img", "input"):
+                        bad = "the output contains a self-closed <%s /> element: only br, hr, img and input are void" % e["name"]
+                for e in ([] if bad else empty_elements(forest, [])):
+                    ok = e["name"] in STRUCTURE or (e["name"] == "a" and "id" in e["attrs"]) or (keep and e["name"] in ("p", "h1", "h2", "pre", "col", "area"))
                     if not ok:
                         bad = "the output contains an empty <%s> element" % e["name"]
                         break
